@@ -363,9 +363,32 @@ func lgamma_small_imp(z, zm1, zm2 float64) float64 {
    return result
 }
 
+// log1pmx(x) = log(1 + x) - x, without cancellation for small |x|
+func log1pmx(x float64) float64 {
+  a := math.Abs(x)
+  if a > 0.95 {
+    return math.Log1p(x) - x
+  }
+  if a < EpsilonFloat64 {
+    return -x*x/2.0
+  }
+  // log(1 + x) - x = sum_{k >= 2} (-1)^(k+1) x^k / k
+  sum  := 0.0
+  term := x
+  for k := 2; k < SeriesIterationsMax; k++ {
+    term *= -x
+    next := term/float64(k)
+    sum  += next
+    if math.Abs(next) <= math.Abs(sum)*EpsilonFloat64 {
+      break
+    }
+  }
+  return sum
+}
+
 func igamma_temme_large(a, x float64) float64 {
   sigma := (x - a)/a
-  phi   := -math.Log1p(sigma) - sigma
+  phi   := -log1pmx(sigma)
   y     := a*phi
   z     := math.Sqrt(2.0*phi)
   if x < a {
